@@ -418,3 +418,12 @@ Proof.
   unfold inner_oval, Contains, Inside, bx, by_, bw, bh; cbn [fst snd].
   ceil_facts. unfold rho, sqrt2f in *. inv_consts. repeat split; lra.
 Qed.
+
+Theorem cloud_fixed_contains :
+  forall w h px py, 0 <= w -> 0 <= h -> 0 <= px -> 0 <= py ->
+    let WH := fit_cloud_fixed w h px py in
+    Contains (w + px) (h + py) (inner Cloud (fst WH) (snd WH) w h).
+Proof.
+  intros w h px py Hw Hh Hpx Hpy. cbv zeta. unfold fit_cloud_fixed, inner; cbn [fst snd].
+  destruct (cloud_branch w h); unfold cloud_iw, cloud_ih, cloud_ix, cloud_iy; crunch.
+Qed.
